@@ -104,6 +104,7 @@ func Explore(l *Loaded, names []string, opt Options) (*Report, error) {
 	active := 0
 	stop := false
 	witTaken := map[string]bool{}
+	pathSeen, pathSampled := map[string]int{}, map[string]int{}
 	reachedSets := map[string]map[string]bool{}
 	violSeen := map[string]bool{}
 	var firstErr error
@@ -146,6 +147,21 @@ func Explore(l *Loaded, names []string, opt Options) (*Report, error) {
 				}
 				witTaken[id] = true
 				return true
+			}
+			ex.WantPathSample = func(h string) bool {
+				if opt.NoReplay {
+					return false
+				}
+				mu.Lock()
+				defer mu.Unlock()
+				pathSeen[h]++
+				// the 1st, 2nd, 4th, 8th ... completed path of each harness, shifted by the seed, at most 12 per harness
+				n := pathSeen[h] + int(opt.Seed%7)
+				if pathSampled[h] < 12 && n&(n-1) == 0 {
+					pathSampled[h]++
+					return true
+				}
+				return false
 			}
 			for {
 				mu.Lock()
